@@ -86,6 +86,7 @@ Definition w_openat (dirfd : Z) (path : bytes) (flags mode : N) : prog (result Z
 (* syscalls::openat2 (syscalls.rs:677-717): own wrapper, path truncated at NUL *)
 Definition w_openat2 (dirfd : Z) (path : bytes) (flags mode resolve : N) : prog (result Z N) :=
   if negb (valid_fd dirfd) then Ret (Err EBADF) else
+  if OPENAT2_NUL_EINVAL && has_nul path then fail1 dirfd EINVAL else
   Call (Openat2 dirfd (to_c_string path) (N.lor flags OPENAT2_FORCED) mode resolve) (fun r =>
     match as_fd r with
     | Ok n => Ret (Ok n)
